@@ -138,7 +138,9 @@ def known_findings(ctx):
         rep["KF-C10-infoname"] = bool(m and ((m.group(1) == m.group(3) and m.group(1) != m.group(2)) or m.group(4) != m.group(5)))
     if len(obs) >= 3:
         rep["KF-C10-renameself"] = obs[1].strip() == "bp=false ref=true"
-        rep["KF-C10-rootops"] = obs[2].strip() == "removeall=<nil> base-dir-exists=false"
+        # repaired (fix: BasePathFS Remove and RemoveAll refuse to remove the root directory): no longer listed,
+        # so a reproduction is reported as a violation below
+        rep["KF-C10-rootops"] = "base-dir-exists=false" in obs[2] or obs[2].startswith("removeall=<nil>")
     for kid, hit in rep.items():
         if kid in ids and hit:
             ctx.known_finding(kid, ids[kid]["what"])
